@@ -31,6 +31,8 @@ const LINES: &[(&str, &str)] = &[
     ("[1][5]", ""),
     ("q", ""),
     ("fn f() { 99 }", ""),
+    ("1 / 0; let x = 7", ""), // fails before it would rebind x: the earlier x must survive
+    ("fn f() { 1", ""),       // a block still open at the end of the line
 ];
 const CORE: usize = 12;
 
@@ -204,7 +206,7 @@ impl Property for P23 {
     fn assumptions(&self) -> Vec<String> {
         vec![
             "lines reach run_prompt through the cfg(p2sh_verif) scripted line source; the interactive editor (continuation lines, history, completion) is not driven".into(),
-            "a name bound by a statement after the failing statement of a line is never read (the script of the statement has no such binding)".into(),
+            "a name that only a statement after the failing statement of a line would have bound is read only where an earlier binding of it exists (which must survive); with no earlier binding the script does not compile and the comparison is void".into(),
             "every echo of the alphabet is a single line, so stdout lines map to lines of the history in order".into(),
         ]
     }
